@@ -1,4 +1,5 @@
 """C12 — stream decoders are insensitive to segmentation; truncation is an error or clean EOF."""
+import harness
 from specs import codec, replies
 
 
